@@ -32,8 +32,22 @@ func families(quick bool) []txnh.Family {
 	wrs := []string{"set:a", "set:b", "del:a"}
 	mnt := []string{"get:a", "set:a", "del:a", "scan"}
 	env := [][]string{{"rf"}, {"rf", "compact"}}
+	// Trim window: key a is committed once, a lagging reader (slot 1) begins, an unrelated
+	// commit moves the clock; then every merge of {the lagging reader ends; T reads a and
+	// writes; W overwrites/deletes a; C commits elsewhere}. Reaches "an old writer of a is
+	// trimmed from the conflict history while a newer writer of a is still inside T's window".
+	S := func(ops ...string) txnh.Script { return txnh.Script(ops) }
+	trim := txnh.Family{Name: "ns-trim-window", Reduce: true,
+		Prelude: "9.begin 9.set:a 9.commit 1.begin 8.begin 8.set:b 8.commit",
+		Fixed: [][]txnh.Script{
+			{S("~", "commit")},
+			{S("get:a", "set:a", "commit"), S("get:a", "set:b", "commit"), S("scan", "set:b", "commit")},
+			{S("set:a", "commit"), S("del:a", "commit")},
+			{S("set:b", "commit"), S("set:a", "commit")},
+		}}
 	if quick {
 		return []txnh.Family{
+			trim,
 			{Name: "ns-2txn", Slots: rep(full, 2), MaxOps: []int{2, 2}, Ends: cd, Reduce: true, Symmetry: true},
 			{Name: "ns-3txn", Slots: rep(full, 3), MaxOps: []int{1, 1, 1}, Ends: cd, Reduce: true, Symmetry: true},
 			{Name: "ns-2txn-readonly", Slots: [][]string{full, {"get:a", "get:b", "scan"}}, MaxOps: []int{2, 3}, Ends: cd, ReadOnly: []bool{false, true}, Reduce: true},
@@ -43,6 +57,7 @@ func families(quick bool) []txnh.Family {
 		}
 	}
 	return []txnh.Family{
+		trim,
 		{Name: "ns-2txn", Slots: rep(full, 2), MaxOps: []int{3, 3}, Ends: cd, Reduce: true, Symmetry: true},
 		{Name: "ns-3txn", Slots: rep(full, 3), MaxOps: []int{2, 1, 1}, Ends: cd, Reduce: true},
 		{Name: "ns-2txn-readonly", Slots: [][]string{full, {"get:a", "get:b", "scan"}}, MaxOps: []int{3, 3}, Ends: cd, ReadOnly: []bool{false, true}, Reduce: true},
